@@ -230,6 +230,26 @@ func (u *ubound) returnedMemberBounded(ret *ssa.Return, fld int, isX func(ssa.Va
 		if nst != 1 {
 			continue
 		}
+		// the copy is handed back after one of its members may have been lowered
+		// (`func (p position) capped(n uint64) position { if n > 0 && p.num > n { p.num = n }; return p }`):
+		// the definitions of that member that reach the return (memfield.go)
+		hasFieldStore := false
+		for _, ref := range *cell.Referrers() {
+			if fa, isFA := ref.(*ssa.FieldAddr); isFA && fa.Field == fld {
+				for _, r2 := range *fa.Referrers() {
+					if st, isSt := r2.(*ssa.Store); isSt && st.Addr == ssa.Value(fa) {
+						hasFieldStore = true
+					}
+				}
+			}
+		}
+		if hasFieldStore {
+			mf := u.memFieldOf(cell, fld)
+			if def := mf.At(ld); def != nil && u.boundedDef(mf, def, isX, d+1, busy, map[*memDef]bool{}) {
+				return true
+			}
+			continue
+		}
 		good := false
 		allInstrs(fn, func(in ssa.Instruction) {
 			if good {
